@@ -278,10 +278,12 @@ func (a *An) c01Primitives() {
 	if fn := a.MustFn("isGroupElement"); fn != nil {
 		a.SuccessRequires(rule, fn, "passed:gte($n, global:g1)", "passed:lte($n, global:pMinusTwo)")
 	}
-	for name, want := range map[string]string{"gte": "((*math/big.Int).Cmp($l, $r) != -1)", "lte": "((*math/big.Int).Cmp($l, $r) != 1)", "eq": "((*math/big.Int).Cmp($l, $r) == 0)", "gt": "((*math/big.Int).Cmp($l, $r) == 1)", "lt": "((*math/big.Int).Cmp($l, $r) == -1)"} {
+	// the comparison helpers decide the ordering their name says (whether written "== -1" or "< 0")
+	for name, want := range map[string]string{"gte": "ge", "lte": "le", "eq": "eq", "gt": "gt", "lt": "lt"} {
 		if fn := a.MustFn(name); fn != nil {
 			for _, r := range a.returnsOf(fn) {
-				a.TermIs(rule, name+"|definition", "comparison helper "+name, r, r.Results[0], want)
+				got := strings.Join(a.gateTerms(r.Results[0], true, 0), " & ")
+				R.Check(got == "cmp[(*math/big.Int).Cmp($l, $r)] "+want, rule, name+"|definition", "comparison helper "+name, a.C.InstrPos(r), "it decides "+got)
 			}
 		}
 	}
@@ -373,7 +375,7 @@ func (a *An) c01Provenance() {
 		mc := a.uniqueCall(rule, fn, "verifyEncryptedSignatureMAC")
 		if pk != nil && hm != nil && sv != nil && dc != nil && mc != nil {
 			R.Check(instrDominates(mc, dc) && instrDominates(dc, pk) && instrDominates(pk, hm) && instrDominates(hm, sv), rule, "processEncryptedSig|order", "MAC check, decrypt, parse, expected MAC, signature verification in this order", a.C.Pos(fn.Pos()), "order differs")
-			R.Check(pk.Call.Args[0] == dc.Call.Args[1], rule, "processEncryptedSig|parse-input", "the key is parsed from the decrypted signature block", a.C.InstrPos(pk), "parsed from "+a.C.Term(pk.Call.Args[0]))
+			R.Check(a.C.throughHelper(pk.Call.Args[0]) == a.C.throughHelper(dc.Call.Args[1]), rule, "processEncryptedSig|parse-input", "the key is parsed from the decrypted signature block", a.C.InstrPos(pk), "parsed from "+a.C.Term(pk.Call.Args[0]))
 			a.TermIs(rule, "processEncryptedSig|decrypt-key", "decryption key", dc, dc.Call.Args[0], "akeKeys.c")
 			a.TermIs(rule, "processEncryptedSig|decrypt-src", "decrypted data", dc, dc.Call.Args[2], "$encryptedSig")
 			a.TermIs(rule, "processEncryptedSig|mac-args", "MAC'd data", mc, mc.Call.Args[0], "$encryptedSig")
